@@ -616,6 +616,19 @@ def _derive(ip, fv, args, kwargs, pure):
 
 
 # ---- math / os / itertools / json ---------------------------------------------------------------
+@model("operator.index")
+def _op_index(ip, fv, args, kwargs, pure):
+    _nargs(args, 1, "operator.index")
+    v = args[0]
+    if isinstance(v, bool):
+        return int(v)
+    if isintlike(v):
+        return v
+    if isinstance(v, (bytes, str, float, list, tuple, dict, SBytes, SStr)) or v is None:
+        raise Raise("TypeError")
+    raise Unsupported("operator.index of %r" % (v,))
+
+
 @model("math.ceil")
 def _ceil(ip, fv, args, kwargs, pure):
     v = args[0]
